@@ -53,7 +53,41 @@ def run_c39(prop):
     return v.finish()
 
 
+def run_c44(prop):
+    quick = vlib.tier() != "thorough"
+    SPEC = os.path.join(vlib.SPEC, "restjson")
+    v = Verdict(prop, "model_checking")
+    v.rule = ("case = symbolic JSON term (30 leaf classes; arrays up to width 2 (thorough 3) and objects over 2 keys of leaves; thorough adds depth 2 samples) "
+              "sent through inject and inject-batch into a typed and a pass-through pipeline; every case is non-trivial; distinct by hash")
+    v.exhaustive = True
+    v.assumptions = ["JSON-representable = what serde_json parses without loss (finite numbers up to u64/f64)",
+                     "the pipeline's view of the type is type_of(v)"]
+    w = workdir("restjson")
+    cases = []
+    for faithful, label in (("FALSE", "ideal"), ("TRUE", "faithful")):
+        cfg = "_rj.cfg"
+        with open(os.path.join(SPEC, cfg), "w") as f:
+            f.write(open(os.path.join(SPEC, "RestJson.cfg")).read().replace("Faithful = TRUE", "Faithful = " + faithful).replace("Width = 2", "Width = %d" % (2 if quick else 3)))
+        r = run_tlc(SPEC, "RestJson", cfg, "restjson", workers=4, timeout=3000)
+        os.remove(os.path.join(SPEC, cfg))
+        if r.error:
+            raise vlib.ToolError("RestJson(%s): %s" % (label, r.error))
+        got = extract_cases(r.stdout)
+        v.add_tlc(r, "RestJson %s: Design invariant on %d terms" % (label, len(got)))
+        if faithful == "TRUE":
+            cases = got
+    cpath, rpath = os.path.join(w, "cases.ndjson"), os.path.join(w, "report.json")
+    write_ndjson(cpath, cases)
+    run_harness("vh", ["restjson-replay", cpath, rpath], timeout=3000)
+    rep = load_report(rpath)
+    v.add_report(rep)
+    v.notes.append("counters: %s" % rep["counters"])
+    return v.finish()
+
+
 def run(prop, replay=None):
     if prop == "C39":
         return run_c39(prop)
+    if prop == "C44":
+        return run_c44(prop)
     raise vlib.ToolError("no check for " + prop)
